@@ -4,19 +4,25 @@ open Zconv
 
 let nat s = nat_of_int (int_of_string s)
 
-(* Sizes are unary nat in the extracted code.  removeFront / removeBack accept every usize; an argument
-   above 10^6 (in particular one near 2^64) is passed as size+1, where size = the current size of the
-   variable in the model / reference state.  Justified by C08_remove_clamp / C08_spec_remove_clamp:
-   any two arguments >= size give the same result. *)
-let clamp_big (size_of : int -> int) toks = match toks with
-  | [("rmfront" | "rmback") as o; v; n] when String.length n > 6 ->
-    let sz = (try size_of (int_of_string v) with _ -> 0) in
-    [o; v; string_of_int (sz + 1)]
-  | _ -> toks
+(* every usize: a decimal string up to 2^64-1 -> the extracted binary N (no native 64-bit arithmetic:
+   long division of the digit string by 2) *)
+let n_of_dec (s : string) : n =
+  let digits = ref (List.init (String.length s) (fun i -> Char.code s.[i] - 48)) in
+  List.iter (fun d -> if d < 0 || d > 9 then failwith ("bad number: " ^ s)) !digits;
+  let bits = ref [] in                                     (* least significant first *)
+  while List.exists (fun d -> d <> 0) !digits do
+    let rem = ref 0 in
+    digits := List.map (fun d -> let v = !rem * 10 + d in rem := v land 1; v lsr 1) !digits;
+    bits := !rem :: !bits
+  done;
+  (* !bits is most significant first *)
+  match !bits with
+  | [] -> N0
+  | _ :: rest -> Npos (List.fold_left (fun p b -> if b = 1 then XI p else XO p) XH rest)
 
 let parse_op toks = match toks with
   | ["new"] -> ONew
-  | ["newcap"; n] -> ONewCap (nat n)
+  | ["newcap"; n] -> ONewCap (n_of_dec n)
   | ["newdata"; h] -> ONewData (bytes_of_hex h)
   | ["newcopy"; w] -> ONewCopy (nat w)
   | ["attach"; v; h] -> OAttach (nat v, bytes_of_hex h)
@@ -26,14 +32,17 @@ let parse_op toks = match toks with
   | ["prependb"; v; w] -> OPrependB (nat v, nat w)
   | ["append"; v; h] -> OAppend (nat v, bytes_of_hex h)
   | ["appendb"; v; w] -> OAppendB (nat v, nat w)
-  | ["resize"; v; n] -> OResize (nat v, nat n)
-  | ["reserve"; v; n] -> OReserve (nat v, nat n)
-  | ["rmfront"; v; n] -> ORemoveFront (nat v, nat n)
-  | ["rmback"; v; n] -> ORemoveBack (nat v, nat n)
+  | ["resize"; v; n] -> OResize (nat v, n_of_dec n)
+  | ["reserve"; v; n] -> OReserve (nat v, n_of_dec n)
+  | ["rmfront"; v; n] -> ORemoveFront (nat v, n_of_dec n)
+  | ["rmback"; v; n] -> ORemoveBack (nat v, n_of_dec n)
   | ["clear"; v] -> OClear (nat v)
   | ["free"; v] -> OFree (nat v)
   | ["swap"; v; w] -> OSwap (nat v, nat w)
   | ["eq"; v; w] -> OEq (nat v, nat w)
+  | ["appendat"; v; off; n] -> OAppendAt (nat v, nat off, nat n)
+  | ["assignat"; v; off; n] -> OAssignAt (nat v, nat off, nat n)
+  | ["prependat"; v; off; n] -> OPrependAt (nat v, nat off, nat n)
   | _ -> failwith ("bad op: " ^ String.concat " " toks)
 
 let res_str r = match r with None -> "-" | Some true -> "1" | Some false -> "0"
@@ -45,7 +54,7 @@ let cells_str l = String.concat "" (List.map (fun c -> cell_str c ^ " ") l)
 
 let err_str e = match e with
   | OutOfBounds -> "OutOfBounds" | WriteForeign -> "WriteForeign" | Overlap -> "Overlap"
-  | BadState -> "BadState" | BadArg -> "BadArg"
+  | BadState -> "BadState" | BadArg -> "BadArg" | AllocFail -> "AllocFail"
 
 let pub_model (w : buf list) =
   "G=ok" ^ String.concat "" (List.map (fun b ->
@@ -79,12 +88,12 @@ let () =
          match st with
          | None -> None
          | Some w ->
-           let toks = clamp_big (fun v -> List.length (exposed (List.nth w v))) toks in
            (match step w (parse_op toks) with
             | Ok (w', r) ->
               emit (Printf.sprintf "%s | %s | %s" (ans_str (is_eq toks) r) (pub_model w') (int_model w'));
               Some w'
             | Err BadArg -> emit "! not-accepted"; None
+            | Err AllocFail -> emit "! oom"; None          (* what the sanitizer run prints for a request new[] cannot satisfy *)
             | Err e -> emit ("! model:" ^ err_str e); None))
       (fun _ -> ())
   else
@@ -93,10 +102,10 @@ let () =
          match st with
          | None -> None
          | Some qs ->
-           let toks = clamp_big (fun v -> List.length (List.nth qs v)) toks in
            (match spec_step qs (parse_op toks) with
-            | Some (qs', r) ->
+            | SOk (qs', r) ->
               emit (Printf.sprintf "%s | %s" (ans_str (is_eq toks) r) (pub_spec qs'));
               Some qs'
-            | None -> emit "! not-accepted"; None))
+            | SReject -> emit "! not-accepted"; None
+            | SUnsat -> emit "! oom"; None))
       (fun _ -> ())
